@@ -219,5 +219,7 @@ func (s *realSched) Fire(name string) bool {
 func (s *realSched) goroutines() int {
 	s.mu.Lock()
 	defer s.mu.Unlock()
-	return len(s.jobs) + s.claimed
+	// a job that vouch has told the scheduler to run now (claimed) is not in the
+	// table any more; its goroutine is work in progress, not part of the allowance
+	return len(s.jobs)
 }
